@@ -432,9 +432,8 @@ class Scenario:
         return mid, f'{kind}:{"".join(order)}'
 
     # -- oracles --------------------------------------------------------------
-    def judge(self, mid, ans, what, tags, held, expect_refusal=False, known=None):
-        """`ans` is the answer of a load op; `held` = each returned root holds one reference.
-        `known` = tags of a known defect that explains any failure of this case."""
+    def judge(self, mid, ans, what, tags, held, expect_refusal=False):
+        """`ans` is the answer of a load op; `held` = each returned root holds one reference."""
         ctx = self.ctx
         s = self.s
         b = s.mgr(mid)
@@ -481,14 +480,11 @@ class Scenario:
             if not problems:
                 problems += canon_problems(b, univ)
         if problems:
-            t = dict(tags)
-            if known:
-                t.update(known)
             ctx.violation(what, dict(problems=problems[:4], got=ans, lines=list(s.lines[-3:]),
-                                     **self.tag_base, tags=t))
+                                     **self.tag_base, tags=dict(tags)))
         return got
 
-    def after_drop(self, mid, tags, known=None):
+    def after_drop(self, mid, tags):
         """After the returned `Function`s were released: exact counts again, and a
         collection leaves exactly what is reachable from what is still held."""
         s = self.s
@@ -500,16 +496,10 @@ class Scenario:
             problems.append(f'after collection: nodes {sorted(b._succ)} expected {sorted(keep)}')
         problems += check_invariants(b, s.ledger.get(mid, {}))
         if problems:
-            t = dict(tags)
-            if known:
-                t.update(known)
             self.ctx.violation('counts after releasing the loaded roots', dict(
-                problems=problems[:4], **self.tag_base, tags=t))
+                problems=problems[:4], **self.tag_base, tags=dict(tags)))
 
 
-F2 = dict(call='load', symptom='roots-none')
-F3 = dict(call='load', symptom='levels-false-other-order')
-F11 = dict(call='load', symptom='constant-root')
 
 TARGET_KINDS = ['fresh', 'same', 'declared-same', 'declared-other', 'declared-extra',
                 'declared-below']
@@ -559,18 +549,18 @@ def run_scenario(ctx, names, src_levels, tts, as_dict, signs, kinds, with_none):
                     mid, desc = sc.target(kind)
                     before = dict(s.mgr(mid).vars)
                     lm = level_map_for(before, levels)
-                    known = None
-                    if has_const:
-                        known = F11
-                    elif not levels and lm is not None and not monotone(lm):
-                        known = F3
+                    # formerly failing configurations (repaired by 8564934 / 58a79f8); a
+                    # regression is a plain violation
+                    former = ('F11' if has_const else
+                              'F3' if (not levels and lm is not None and not monotone(lm)) else None)
                     # reordering enabled in the receiving manager: `find_or_add` asks for
                     # reordering only inside a reordering context, `load` opens none
                     dyn = kind != 'same' and rng.random() < 0.15
                     if dyn:
                         s.op(mid, 'configure', 1)
                         s.op(mid, 'fire_in', 1)
-                    tags = dict(call='load', fmt='pickle', target=kind, levels=levels, auto=auto, dyn=dyn)
+                    tags = dict(call='load', fmt='pickle', target=kind, levels=levels, auto=auto, dyn=dyn,
+                                former=former)
                     if auto:
                         hh = sc.hold_handle()
                         a2 = s.op(mid, 'pload_auto', fh, hh, int(levels), *fields)
@@ -579,19 +569,25 @@ def run_scenario(ctx, names, src_levels, tts, as_dict, signs, kinds, with_none):
                     if dyn:
                         s.op(mid, 'fire_off')
                     got = sc.judge(mid, a2, f'pickle load into {desc} levels={levels}', tags,
-                                   held=auto, expect_refusal=(lm is None), known=known)
-                    if kind == 'same' and got is not None and levels and not has_const:
+                                   held=auto, expect_refusal=(lm is None))
+                    if kind == 'same' and got is not None:
                         if got != sc.roots:
                             ctx.violation('loading into the same manager returned other references',
                                           dict(got=a2, **sc.tag_base, tags=tags))
                     if auto and a2.startswith('ok'):
                         s.op(mid, 'drop', hh, a2[3:])
-                        sc.after_drop(mid, tags, known)
+                        sc.after_drop(mid, tags)
                     s.state(mid)
                     ctx.count(f'pickle:{kind}:{"L" if levels else "l"}')
+    # ---- the source is untouched by the pickle dumps (loads into `same` add nodes) -----
+    if 'same' not in kinds and s.state(0) != src_state:
+        ctx.violation('dumping changed the source manager', dict(tags=dict(call='dump')))
     # ---- pickle without roots (stores every node) ------------------------------
     if with_none:
+        before_none = s.state(0)
         ans = s.op(0, 'pdump', 'N')
+        if s.state(0) != before_none:
+            ctx.violation('dumping changed the source manager', dict(tags=dict(call='dump')))
         if ans.startswith('ok'):
             fh, d = sc.last()
             if set(d['succ']) != set(s.mgr(0)._succ) or d['roots'] is not None:
@@ -601,9 +597,9 @@ def run_scenario(ctx, names, src_levels, tts, as_dict, signs, kinds, with_none):
             mid, desc = sc.target(rng.choice(['fresh', 'same', 'declared-same']))
             a2 = s.op(mid, 'pload', fh, 1, *fields)
             ctx.evaluations += 1
-            if not a2.startswith('ok'):
-                ctx.violation('a pickle dumped without roots does not load back', dict(
-                    got=a2, target=desc, **sc.tag_base, tags=F2))
+            if a2 != 'ok L:':
+                ctx.violation('a pickle dumped without roots does not load back as an empty list', dict(
+                    got=a2, target=desc, **sc.tag_base, tags=dict(call='load', fmt='pickle-none', former='F2')))
             bad = check_invariants(s.mgr(mid), s.ledger.get(mid, {}))
             if bad:
                 ctx.violation('manager broken after loading a pickle without roots', dict(
@@ -611,9 +607,6 @@ def run_scenario(ctx, names, src_levels, tts, as_dict, signs, kinds, with_none):
             s.state(mid)
         else:
             ctx.violation('pickle dump without roots raised', dict(got=ans, tags=dict(call='dump')))
-    # ---- the source is untouched by the pickle dumps (loads into `same` add nodes) -----
-    if 'same' not in kinds and s.state(0) != src_state:
-        ctx.violation('dumping changed the source manager', dict(tags=dict(call='dump')))
     # ---- whole manager ----------------------------------------------------------
     before_mdump = s.state(0)
     ans = s.op(0, 'mdump')
@@ -774,7 +767,8 @@ def build_driver():
 
 
 def witness_json_reordering_flag(ctx):
-    """F10 (observation, outside the text of C12): `_load_json(load_order=True)` keeps the dict
+    """F10 / F12 (observations, outside the text of C12 and C17 as stated; the model mirrors
+    both, they are recorded as notes, never as violations).  F10: `_load_json(load_order=True)` keeps the dict
     returned by `configure()` and passes it back as the value of `reordering`, so dynamic
     reordering is enabled after the call although it was disabled before.  The model mirrors
     it (`DD.loadJson_loadOrder_enables_reordering`); recorded as a note, not as a violation."""
@@ -794,7 +788,18 @@ def witness_json_reordering_flag(ctx):
     if before is None and after is not None:
         ctx.notes.append('F10 observed: load_json(load_order=True) left dynamic reordering ENABLED '
                          f'(_last_len None -> {after}) on a manager where it was disabled')
-    ctx.add_session(s, SECTIONS_L3, 'C12 F10 witness')
+    # F12 (observation): a refused `load_json(load_order=True)` (other variable set: `reorder`
+    # raises ValueError) leaves dynamic reordering switched OFF and the file's variables declared
+    s.new(2, ['a', 'b', 'x'])
+    s.op(2, 'configure', 1)
+    a3 = s.op(2, 'jload', fh, 'h2', 1, *json_fields(d, False))
+    if a3.startswith('err') and s.mgr(2)._last_len is None:
+        ctx.notes.append('F12 observed: a refused load_json(load_order=True) left dynamic reordering '
+                         f'DISABLED on a manager where it was enabled ({a3})')
+    elif a3.startswith('ok'):
+        s.op(2, 'drop', 'h2', a3[3:])
+    s.state(2)
+    ctx.add_session(s, SECTIONS_L3, 'C12 F10/F12 witness')
     s.close()
 
 
@@ -806,7 +811,8 @@ def check_C12(ctx):
         refused_files(ctx)
         abc = ['a', 'b', 'c']
         abcd = ['a', 'b', 'c', 'd']
-        # fixed witnesses of the defects seen at design time, replayed on every run:
+        # the inputs on which the tree failed before the fix commits 8564934 / 58a79f8 run first
+        # on every run (must pass now):
         #  F3  b /\ a dumped from a manager whose `vars` dict order (a, b, c) differs from its
         #      level order (b < a < c), loaded with levels=False (fresh manager included);
         #  F2  the same manager dumped without roots;  F11  the constant TRUE among the roots
@@ -851,7 +857,7 @@ def check_C12(ctx):
                 ctx.flush_model()
         ctx.notes.append(f'{n} scenarios')
         ctx.notes.append('pickle load with dynamic reordering enabled and the request armed: '
-                         'find_or_add asks for reordering only inside a reordering context and '
+                         'find_or_add asks for reordering only inside a reordering context, load uses the undecorated _ite and '
                          'BDD.load opens none, so no reordering happens (nothing escapes); JSON load '
                          '(load_order=False) reorders inside var()/ite() and stays correct')
     finally:
